@@ -360,3 +360,34 @@ End Dump.
     refutation lemma in proofs/DumpProofs.v. *)
 Definition group_count_before_fix (members : list nat) : nat :=
   match members with [] => 0 | _ => S (list_max members) end.
+
+(** * A decidable check of what the theorems of C19 assume about a simulation
+    (proofs/DumpProofs.v: [dumpable_b_sound]); the correspondence evaluates it on every
+    generated state.  The storability of the stored periods is not part of it. *)
+Definition key_ok_b (sy : sys) (u : simu) (k : key) (a : val) : bool :=
+  match nth_error (vars sy) (fst k) with
+  | None => false
+  | Some x =>
+      negb (v_neutral x)
+      && (if is_eternal x then period_eqb (snd k) eternity_period
+          else unit_eqb (p_unit (snd k)) (v_unit x) && (p_size (snd k) <=? 1)%Z)
+      && Nat.eqb (length a) (count_in u (v_ent x))
+  end.
+
+Fixpoint nodup_strings (l : list string) : bool :=
+  match l with
+  | [] => true
+  | x :: r => negb (existsb (String.eqb x) r) && nodup_strings r
+  end.
+
+Definition group_ok_b (e : gentity) (u : simu) : bool :=
+  Nat.eqb (u_gcount u) (length (u_gids u))
+  && match flattened_roles e with [] => false | _ => true end
+  && nodup_strings (map (role_key e) (flattened_roles e))
+  && forallb (fun r => existsb (Nat.eqb r) (flattened_roles e)) (u_roles u)
+  && match positions u with Ok _ => true | Err _ => false end.
+
+Definition dumpable_b (sy : sys) (og : option gentity) (u : simu) : bool :=
+  forallb (fun kv => key_ok_b sy u (fst kv) (snd kv)) (cache (u_st u))
+  && Nat.eqb (u_pcount u) (length (u_pids u))
+  && match og with Some e => group_ok_b e u | None => Nat.eqb (u_gcount u) 0 end.
